@@ -1,0 +1,40 @@
+//go:build verif && !verifnonode && !verifnoiter
+
+package art
+
+import "unsafe"
+
+// Verification hooks (build tag "verif"): the library's own traversals run over
+// a bare node. Kept apart from verif_node.go so that the rest of the hooks still
+// build (tag "verifnoiter") if the traversal helpers change their signatures.
+
+func verifRestoreDummy(p unsafe.Pointer) (int, int) {
+	return (*verifDummyLeaf)(p).id, 0
+}
+
+// Children runs the library's own ascending traversal over the node.
+func (h *VerifNodeHandle) Children() []int {
+	var ids []int
+	for id := range all[int, int](h.ref, verifRestoreDummy) {
+		ids = append(ids, id)
+	}
+	return ids
+}
+
+// ChildrenBackward runs the library's own descending traversal over the node.
+func (h *VerifNodeHandle) ChildrenBackward() []int {
+	var ids []int
+	for id := range backward[int, int](h.ref, verifRestoreDummy) {
+		ids = append(ids, id)
+	}
+	return ids
+}
+
+// First and Last use the library's minimum/maximum descent.
+func (h *VerifNodeHandle) First() int {
+	return (*verifDummyLeaf)(minimum[int](h.ref)).id
+}
+
+func (h *VerifNodeHandle) Last() int {
+	return (*verifDummyLeaf)(maximum[int](h.ref)).id
+}
